@@ -199,9 +199,30 @@ def gen_c10(seed, size="quick"):
     dom = r.choice([8, 15, 30])
     edb(t, r, r.choice([20, 60, 150]) if size == "quick" else r.choice([60, 150, 300]), dom)
     t.meta["choice"] = []
-    kinds = r.sample(["single", "two", "composite", "tree", "recursive_pick", "agg", "agg2"], r.randrange(1, 4))
+    kinds = r.sample(["single", "two", "composite", "tree", "recursive_pick", "agg", "agg2", "idx", "idx2", "exists"], r.randrange(1, 4))
     for kind in kinds:
-        if kind == "agg":
+        if kind == "idx":
+            # outermost operation is an index scan (constant in the first atom)
+            k = r.randrange(0, 4)
+            t.decls.append(".decl picki(y:number,z:number) choice-domain y")
+            t.rules.append({"head": ("picki", [V("y"), V("z")]), "body": [("atom", "e1", [C(k), V("y")]), ("atom", "e1", [V("y"), V("z")])]})
+            t.rules.append({"head": ("picki", [V("y"), V("z")]), "body": [("atom", "e1", [C(k + 1), V("y")]), ("atom", "ew", [V("y"), V("z"), U])]})
+            t.meta["choice"].append({"rel": "picki", "keys": [[0]]})
+            t.outputs.append("picki")
+        elif kind == "idx2":
+            # outermost operation is a range index scan (inequality on the first atom), two keys
+            k = r.randrange(0, 4)
+            t.decls.append(".decl pickr(x:number,y:number) choice-domain x, y")
+            t.rules.append({"head": ("pickr", [V("x"), V("y")]), "body": [("atom", "e1", [V("x"), V("y")]), ("cmp", ">", V("x"), C(k))]})
+            t.meta["choice"].append({"rel": "pickr", "keys": [[0], [1]]})
+            t.outputs.append("pickr")
+        elif kind == "exists":
+            # the first atom's variables are unused in the head: outermost IF EXISTS
+            t.decls.append(".decl picke(z:number,w:number) choice-domain z")
+            t.rules.append({"head": ("picke", [V("z"), V("w")]), "body": [("atom", "n1", [V("z")]), ("atom", "ew", [U, V("z"), V("w")])]})
+            t.meta["choice"].append({"rel": "picke", "keys": [[0]]})
+            t.outputs.append("picke")
+        elif kind == "agg":
             # choice rule whose body contains an aggregate (the outer scan is a candidate for parallelisation)
             t.decls.append(".decl pickc(x:number,c:number) choice-domain c")
             t.rules.append({"head": ("pickc", [V("x"), V("c")]),
